@@ -2,7 +2,7 @@
 
 MODE_FLAVOUR = {
     'load': 'asan', 'shape': 'asan', 'just': 'asan', 'hist': 'asan', 'conf': 'asan', 'borrow': 'asan', 'sweep': 'asan',
-    'feat': 'asan', 'lz4': 'asan', 'lz4c': 'asan', 'fuzzreg': 'asan', 'conc': 'tsan',
+    'feat': 'asan', 'lz4': 'asan', 'lz4c': 'asan', 'fuzzreg': 'asan', 'conc': 'tsan', 'synth': 'asan',
 }
 
 _FACE_APIS = ('gr_make_face', 'gr_make_file_face', 'face-exercise', 'face-report', 'face-query', 'label', 'gr_face_destroy', 'featureval',
@@ -38,7 +38,7 @@ PROPS = {
     },
     'C02': {
         'level': 'exploration',
-        'batches': [{'mode': 'fuzzreg', 'quick': 'all', 'thorough': 'all', 'chunk': 40}, {'mode': 'shape', 'quick': 5000, 'thorough': 500000, 'chunk': 100}],
+        'batches': [{'mode': 'fuzzreg', 'quick': 'all', 'thorough': 'all', 'chunk': 40}, {'mode': 'shape', 'quick': 5000, 'thorough': 500000, 'chunk': 100}, {'mode': 'synth', 'quick': 6000, 'thorough': 600000, 'chunk': 200}],
         'rule': 'one run = one (possibly rotten) font storage accepted by gr_make_face + 3..40 gr_make_seg calls with the full accessor script; '
                 'distinct = distinct plan hash; non-trivial = face accepted and at least one segment operation executed',
         'require_probes': ['seg:returned', 'seg:exercised'],
@@ -56,7 +56,7 @@ PROPS['C19'] = {
 
 _MON = {
     'level': 'exploration',
-    'batches': [{'mode': 'shape', 'quick': 3000, 'thorough': 300000, 'chunk': 100}, {'mode': 'hist', 'quick': 1500, 'thorough': 150000, 'chunk': 100},
+    'batches': [{'mode': 'synth', 'quick': 8000, 'thorough': 800000, 'chunk': 200}, {'mode': 'shape', 'quick': 3000, 'thorough': 300000, 'chunk': 100}, {'mode': 'hist', 'quick': 1500, 'thorough': 150000, 'chunk': 100},
                 {'mode': 'just', 'quick': 4000, 'thorough': 400000, 'chunk': 400}, {'mode': 'conf', 'quick': 1000, 'thorough': 100000, 'chunk': 100}],
     'require_probes': ['monitor:segments', 'seg:returned'],
     'assumptions': _ASSUME + ['the program dimension is reached through storage faults on the shipped rule sets, not through a rule compiler'],
